@@ -33,6 +33,14 @@ CLAIMS = {
   text="first half of the property (basic types): every function literal that Universe.addBasicTypeMethodsCTI installs for method M of basic kind K (279 literals: Equal, Cmp, Less, Add, Sub, Mul, Quo, Rem, Neg, And, AndNot, Or, Xor, Not, Lsh, Rsh, Real, Imag, Index, Len, Slice x 17 kinds) is proved to return the Go operator / builtin of that name on the same operands, evaluated in K by Go's rules (wrap-around, IEEE, shift counts), for all operand values, and to have no effect; a literal without a clause, or a clause without a literal, fails",
   note="trusted: go/ssa front end, SMT solvers, machine arithmetic as specified by Go; strings are an uninterpreted model (Index/Slice/Len compared through the same indexing function). Not covered: container methods through reflection (cti_method.go), method resolution in the compiler, signatures in go/types/cti_method.go",
   ref="DESIGN.md section 0.1, section 5 C34"),
+ "C36": dict(
+  text="thin: of the three anchored mechanisms only 'sort and de-duplicate' is under contract: sortUnique is proved, for all inputs, to return a strictly increasing slice (sorted, no duplicates), not longer than its input, non-empty for a non-empty input, every element of which occurs in the input; loop invariants, termination, index safety",
+  note="trusted: sort.Strings specification (sorted permutation), string order model, go/ssa front end, SMT solvers. Not covered: that no input element is lost; word splitting, scope search, field/method listing, head/tail reassembly",
+  ref="DESIGN.md section 0.1, section 5 C36"),
+ "C17": dict(
+  text="thin: only the string-list utilities the sorter is built on are under contract: remove_item_inplace (what remains is exactly, in order, the elements different from the removed one when it is absent; never contains it; nothing invented; same backing array), dup (equal copy in a different array), sort_unique_inplace (strictly increasing, nothing invented); for all inputs, with loop invariants and index safety",
+  note="trusted: sort.Strings specification, string order model, go/ssa front end, SMT solvers. Not covered: the graph algorithm, determinism and source stability, cycle diagnostics, phase split, free-name extraction - i.e. the substance of the property; listed as claimed only for the utility layer",
+  ref="DESIGN.md section 0.1, section 5 C17"),
  "C37": dict(
   text="binarySearch, prefixSearch, removeCmd, Cmds.Lookup/Add/Del are verified against requires/ensures/loop-invariant contracts for all inputs (unbounded slices, arbitrary strings): unique prefix / exact name / ambiguity / no match exactly as stated, termination, no out-of-range access, frame conditions; Interp.Cmd is proved to leave nothing to evaluate after an ambiguous prefix and to hand an unknown ':'-prefixed input back for (forced) evaluation",
   note="trusted: string order/prefix axioms, assumed contract of sortCmdList (sort.Slice), errors.New, strings.Join, go/ssa front end, SMT solvers; strings.TrimSpace / Split2 as pure functions; the text of the ambiguity message and the exact text handed back for evaluation are not under contract",
